@@ -302,21 +302,23 @@ func main() {
 	maxDepth, maxLen := 64, 2
 	c3, e3 := families3(r)
 	c2, e2 := families2(r)
-	for _, f := range c3 {
-		bfsMap(r, f, maxDepth, maxLen)
-	}
-	for _, f := range e3 {
-		bfsMap(r, f, maxDepth, maxLen)
-	}
-	for _, f := range c2 {
-		bfsMap(r, f, maxDepth, maxLen)
-	}
-	for _, f := range e2 {
-		bfsMap(r, f, maxDepth, maxLen)
-	}
-	bfsMesh3(r)
-	bfsMesh2(r)
-	editors3(r)
-	editors2(r)
+	r.Isolate("maps", func() {
+		for _, f := range c3 {
+			bfsMap(r, f, maxDepth, maxLen)
+		}
+		for _, f := range e3 {
+			bfsMap(r, f, maxDepth, maxLen)
+		}
+		for _, f := range c2 {
+			bfsMap(r, f, maxDepth, maxLen)
+		}
+		for _, f := range e2 {
+			bfsMap(r, f, maxDepth, maxLen)
+		}
+	})
+	r.Isolate("mesh3", func() { bfsMesh3(r) })
+	r.Isolate("mesh2", func() { bfsMesh2(r) })
+	r.Isolate("editors3", func() { editors3(r) })
+	r.Isolate("editors2", func() { editors2(r) })
 	r.Finish()
 }
